@@ -287,10 +287,12 @@ type Call struct {
 	Node          int    // target endpoint for GRPCCall / Unicast (1-based)
 	Cfg           *dev.Configuration
 	Req           *dev.Request
+	Req0          string // the request's value at creation (MutateInPlace changes Req if the library hands out no copy)
 	Ctx           context.Context
 	cancel        func(error)
 	Skip          []int // per-node function returns nil for these endpoints (1-based)
 	Empty         []int // per-node function returns a valid message with every field at its default for these endpoints
+	MutateInPlace bool  // the per-node function changes the message it is given and returns it (it is documented to receive a copy)
 	NoSendWaiting bool
 	// Verdict is the quorum function's decision for one invocation (nil: threshold 1).
 	Verdict func(inv *QFInv)
@@ -340,6 +342,7 @@ func (i *QFInv) String() string {
 func (w *W) NewCall(kind string) *Call {
 	c := &Call{Tok: len(w.Calls) + 1, Kind: kind, Cfg: w.Cfg}
 	c.Req = &dev.Request{Value: fmt.Sprintf("t%d", c.Tok)}
+	c.Req0 = c.Req.Value
 	c.Ctx, c.cancel = mcctx.WithCancelErr(context.Background())
 	w.Calls = append(w.Calls, c)
 	return c
@@ -366,6 +369,10 @@ func (c *Call) PerNode(r *dev.Request, id uint32) *dev.Request {
 		if e == int(id) {
 			return &dev.Request{} // a legal message: node id must receive it
 		}
+	}
+	if c.MutateInPlace {
+		r.Value = fmt.Sprintf("%s/n%d", c.Req0, id)
+		return r
 	}
 	return &dev.Request{Value: fmt.Sprintf("%s/n%d", r.Value, id)}
 }
